@@ -32,6 +32,12 @@ def popcountNat : Nat → Nat
   | n+1 => (n+1) % 2 + popcountNat ((n+1) / 2)
 def popcount (k : Int) : Int := Int.ofNat (popcountNat k.toNat)
 
+/-- `a ** b` for ints with `b ≥ 0` -/
+def pow (a b : Int) : Int := a ^ b.toNat
+
+/-- `str(n)` / `f'{n}'` for an int -/
+def strOfInt (n : Int) : List Char := (toString n).toList
+
 /-! ### lists and strings -/
 def len {α} (l : List α) : Int := Int.ofNat l.length
 
@@ -83,6 +89,11 @@ def enumerate {α} (l : List α) : List (Int × α) := enumerateFrom 0 l
 /-- `s[n:]` for `n ≥ 0` -/
 def sliceFrom {α} (l : List α) (n : Int) : List α := l.drop n.toNat
 
+/-- `functools.reduce(f, xs)` without initial value -/
+def reduce {α} (f : α → α → α) : List α → M α
+  | [] => throw "TypeError"
+  | a :: l => pure (l.foldl f a)
+
 /-- `itertools.product(a, b)` -/
 def product {α β} (a : List α) (b : List β) : List (α × β) := a.flatMap fun p => b.map fun q => (p, q)
 
@@ -107,6 +118,12 @@ def dictGet {κ ν} [BEq κ] (d : Dict κ ν) (k : κ) : M ν :=
   match d.find? (·.1 == k) with
   | some p => pure p.2
   | none => throw "KeyError"
+
+/-- `d.get(k)` as an option -/
+def dictGet? {κ ν} [BEq κ] (d : Dict κ ν) (k : κ) : Option ν := (d.find? (·.1 == k)).map (·.2)
+
+/-- `d.get(k, default)` -/
+def dictGetD {κ ν} [BEq κ] (d : Dict κ ν) (k : κ) (dflt : ν) : ν := (dictGet? d k).getD dflt
 
 /-- `d[k] = v`: replaces in place, else appends -/
 def dictSet {κ ν} [BEq κ] : Dict κ ν → κ → ν → Dict κ ν
